@@ -14,10 +14,9 @@ no bit masks, no `path.Dir`):
   A path that is not rooted denotes nothing.
 * The grant table attaches privilege lists to nodes (`grantAt`); the grant that counts for a node is the one
   on its nearest ancestor-or-self that has one (`nearestGrant`), and ONLY that one.
-* `mayAllow` is the upper bound the property states ("only if": the wanted privilege, or `all`, is listed
-  there). `mustAllow` is the lower bound (the wanted privilege is listed, or the list is just `all`); the two
-  differ only for a list that contains `all` together with other privileges but not the wanted one — the
-  property does not say what happens then, either answer satisfies it.
+* `mayAllow` is the reference decision: allowed iff the wanted privilege, or `all`, is listed there. The
+  decision is a FUNCTION of the table: the same table always gives the same answer (clause
+  `decision-deterministic` of the driver; entries that spell the same node are one grant, their lists united).
 * HTTP: the privilege a method needs (`requiredFor`), whose credentials are valid (`validAccounts`), and what a
   served / written request implies (`servedOK`, `wroteOK`).
 * `DbInjective`: distinct database names, distinct resources; `Dev_db_collision` is the recorded deviation.
@@ -56,12 +55,11 @@ def resolveRev : Nat → List Seg → List Seg
 def nodeOf (p : Path) : Option Node :=
   if isAbs p then some (resolveRev 0 (split p).reverse).reverse else none
 
-/-- The privilege list the table attaches to node `n` (a later entry for the same node replaces an earlier
-one; well-formed tables have at most one, see `wfGrants`). -/
+/-- The privileges the table grants ON node `n`: everything listed by the entries whose resource denotes `n`
+(several spellings of one node are one resource); `none` when no entry denotes it. -/
 def grantAt (grants : List (Path × List Nat)) (n : Node) : Option (List Nat) :=
-  match grants.reverse.find? (fun g => nodeOf g.1 = some n) with
-  | some g => some g.2
-  | none => none
+  let hits := grants.filter (fun g => nodeOf g.1 = some n)
+  if hits.isEmpty then none else some (hits.flatMap (fun g => g.2))
 
 /-- Ancestors-or-self of a node, nearest first: the node itself, its parent, …, the root. -/
 def ancestors (n : Node) : List Node := (List.range (n.length + 1)).reverse.map (fun k => n.take k)
@@ -70,10 +68,11 @@ def ancestors (n : Node) : List Node := (List.range (n.length + 1)).reverse.map 
 def nearestGrant (grants : List (Path × List Nat)) (n : Node) : Option (Node × List Nat) :=
   (ancestors n).findSome? (fun a => match grantAt grants a with | some ps => some (a, ps) | none => none)
 
+/-- A privilege list grants `want` when it lists `want` or lists `all`. -/
 def listed (ps : List Nat) (want : Nat) : Bool := ps.contains want || ps.contains pAll
-def surelyListed (ps : List Nat) (want : Nat) : Bool := ps.contains want || (!ps.isEmpty && ps.all (· == pAll))
 
-/-- Upper bound ("only if"). -/
+/-- **The reference decision**: nothing is needed for `none`, an admin may do everything, anybody else exactly
+what the nearest granted ancestor-or-self of the denoted node lists. -/
 def mayAllow (a : Account) (resource : Path) (want : Nat) : Bool :=
   want == pNone || a.admin ||
   match nodeOf resource with
@@ -83,27 +82,15 @@ def mayAllow (a : Account) (resource : Path) (want : Nat) : Bool :=
     | some (_, ps) => listed ps want
     | none => false
 
-/-- Lower bound. -/
-def mustAllow (a : Account) (resource : Path) (want : Nat) : Bool :=
-  want == pNone || a.admin ||
-  match nodeOf resource with
-  | none => false
-  | some n =>
-    match nearestGrant a.grants n with
-    | some (_, ps) => surelyListed ps want
-    | none => false
-
-/-- Tables the statement quantifies over: privileges are the five declared ones, and no two entries denote
-the same node (for such a pair the Go map keeps whichever its random iteration order writes last). -/
+/-- Tables the statement quantifies over: privileges are the five declared ones. -/
 def wfGrants (grants : List (Path × List Nat)) : Bool :=
-  grants.all (fun g => g.2.all validPriv) &&
-  decide (((grants.map (fun g => nodeOf g.1)).filter (·.isSome)).Nodup)
+  grants.all (fun g => g.2.all validPriv)
 
 /-- The decision observed for one (account, resource, privilege) satisfies the property. `observedAllow` is
 what the implementation answered. Returns the violated clause. -/
 def judgeDecision (a : Account) (resource : Path) (want : Nat) (observedAllow : Bool) : Option String :=
   if observedAllow && !mayAllow a resource want then some "only-nearest-grant"
-  else if !observedAllow && mustAllow a resource want then some "granted-but-refused"
+  else if !observedAllow && mayAllow a resource want then some "granted-but-refused"
   else none
 
 /-! ### HTTP -/
